@@ -39,6 +39,18 @@ Proof.
     rewrite Forall_forall in Hf. assert (In (nth m l 0) l) by (apply nth_In; lia). specialize (Hf _ H). lia.
 Qed.
 
+Lemma lt_count_nth : forall toks k, strictly_sorted toks = true -> (k < length toks)%nat ->
+  lt_count toks (nth k toks 0) = k.
+Proof.
+  induction toks as [|a l IH]; intros k Hs Hk; cbn [length] in Hk; [lia|].
+  destruct (strictly_sorted_cons _ _ Hs) as [Hall Hs']. rewrite lt_count_cons.
+  destruct k as [|k]; cbn [nth].
+  - rewrite Z.ltb_irrefl. apply lt_count_zero. eapply Forall_impl; [|exact Hall]. cbn. intros. lia.
+  - rewrite Forall_forall in Hall. assert (Hin : In (nth k l 0) l) by (apply nth_In; lia).
+    specialize (Hall _ Hin). replace (a <? nth k l 0) with true by (symmetry; apply Z.ltb_lt; lia).
+    rewrite IH by (assumption || lia). reflexivity.
+Qed.
+
 Lemma bisect_loop_correct : forall fuel a x lo hi, strictly_sorted a = true ->
   (lo <= lt_count a x)%nat -> (lt_count a x <= hi)%nat -> (hi <= length a)%nat -> (hi - lo < fuel)%nat ->
   bisect_loop fuel a x lo hi = lt_count a x.
